@@ -32,6 +32,7 @@ EXPLANATION = (
     ' (24) MEMO: a hand-written dict memo (if K in self.D: return self.D[K] ... self.D[K] = v) whose value depends on a module global that a setter rebinds has such a global in its key (fix 39ac3d2: Font.render cached glyph canvases by character alone although their bytes come from apply_target_encoding()).'
     ' Round 6: (25) SIB: the rows cut off below the focus (max(E, 0)) and the rows free below it (-E) in ListBox.calculate_visible are computed from the same state; (26) BOUND: BarGraph width lists built as [w] * n are bounded by the available columns.'
     ' (27) POSBOUND: a get_cursor_coords() that rejects its computed column beyond the right edge also rejects a negative one (shared with C09.17; fix 2daba5c: clip + right alignment gave the cursor (-4, 0)).'
+    ' (28) SIB: Padding.pack() and padding_values() state the same unsized total for a given width, compared as linear forms (fix a506415: min_width widened pack() but not render()).'
 )
 NOT_DECIDED = (
     "That composed canvases actually have the requested size for all trees/sizes/texts (value semantics of shards, layout and padding); truthfulness of sizing(); wide-character column "
@@ -427,6 +428,46 @@ def rule_inverse_percent(ctx: Ctx) -> RuleResult:
     return rr
 
 
+def rule_given_total(ctx: Ctx) -> RuleResult:
+    """Padding with a given width under fixed sizing: pack(()) states the total, render(()) builds it from
+    padding_values(()).  Both take it from the same quantities: the first element pack() returns on its
+    `width_type == GIVEN` arm and the total padding_values() computes on its unsized GIVEN arm are the same linear
+    form (given width + left + right).  Before fix a506415 pack() applied max(., min_width) and render() did not:
+    Padding(Text('abc'), 'left', 3, min_width=5).pack(()) said 5 columns, render(()) produced 3."""
+    from ..rules.exc import ExcEngine
+
+    p = ctx.p
+    rr = RuleResult("SIB", "C01.28", "Padding.pack() and Padding.padding_values() compute the same unsized total for a given width", floor=1)
+    forms = {}
+    for name in ("pack", "padding_values"):
+        fi = p.func(f"urwid.widget.padding.Padding.{name}")
+        du = DefUse(fi)
+        cfg = du.cfg
+        tests = [t for t in cfg.nodes if t.kind == "test" and isinstance(t.ast, ast.Compare) and "_width_type" in ast.unparse(t.ast.left) and isinstance(t.ast.ops[0], ast.Eq) and ast.unparse(t.ast.comparators[0]).endswith("GIVEN")]
+        if not tests:
+            raise AnalysisError(f"Padding.{name}: the `self._width_type == WHSettings.GIVEN` test was not found")
+        found = []
+        for n in cfg.nodes:
+            if not any(n not in ExcEngine._reach_without_edge(cfg, t, "T") for t in tests):
+                continue
+            e = None
+            if name == "pack" and n.kind == "return" and isinstance(n.ast.value, ast.Tuple) and n.ast.value.elts:
+                e = n.ast.value.elts[0]
+            if name == "padding_values" and isinstance(n.ast, ast.Assign) and "_width_amount" in ast.unparse(n.ast.value):
+                e = n.ast.value
+            if e is not None:
+                found.append((n, linear(du.expand(e, n))))
+        if len(found) != 1 or found[0][1] is None:
+            raise AnalysisError(f"Padding.{name}: expected one total on the GIVEN arm, found {len(found)}")
+        forms[name] = (fi, found[0][0], found[0][1])
+    a, b = forms["pack"], forms["padding_values"]
+    same = a[2] == b[2]
+    rr.inst("Padding given width", True, {"pack": lin_str(a[2]), "padding_values": lin_str(b[2]), "same": same})
+    if not same:
+        rr.add(finding("SIB", a[0], a[1].stmt, f"pack(()) reports `{lin_str(a[2])}` columns for a given width, render(()) pads to `{lin_str(b[2])}` (padding_values): the canvas is not as wide as the size the widget states - a container that trusts pack() lays the row out for another width", construct="given-width total differs between pack and padding_values"))
+    return rr
+
+
 def rule_complementary_quantities(ctx: Ctx) -> RuleResult:
     """ListBox.calculate_visible() derives two complementary numbers from the position of the focus widget's bottom
     edge E = focus_rows + offset_rows - inset_rows - maxrow: the rows of the focus widget cut off at the bottom,
@@ -603,6 +644,7 @@ def run(ctx: Ctx):
         rule_trim_drops_cursor(ctx),
         rule_overlay_position(ctx),
         rule_inverse_percent(ctx),
+        rule_given_total(ctx),
         rule_complementary_quantities(ctx),
         rule_repeat_bound(ctx),
         _two_sided(ctx),
@@ -616,6 +658,8 @@ _COLS = "urwid/widget/columns.py"
 _CANV = "urwid/canvas.py"
 _TEXT = "urwid/widget/text.py"
 MUTANTS = [
+    Mut("padding-pack-given-min-width", "urwid/widget/padding.py", "Padding.pack", "                self._width_amount + expand,\n", "                max(self._width_amount, self.min_width or 1) + expand,\n", "SIB|widget.padding.Padding.pack|given-width total differs between pack and padding_values"),
+    Mut("twin-padding-pack-given-spelled-out", "urwid/widget/padding.py", "Padding.pack", "                self._width_amount + expand,\n", "                self.right + self._width_amount + self.left,\n", twin=True),
     Mut("bargraph-one-width-per-bar", "urwid/widget/bar_graph.py", "BarGraph.calculate_bar_widths", "            return [1] * maxcol", "            return [1] * len(bardata)", "BOUND|widget.bar_graph.BarGraph.calculate_bar_widths|bar widths [1] * len(bardata) not bounded by maxcol"),
     Mut("listbox-trim-bottom-before-offset-final", "urwid/widget/listbox.py", "ListBox.calculate_visible", "        focus_rows = focus_widget.rows((maxcol,), True)\n\n        # 2. collect the widgets above the focus", "        focus_rows = focus_widget.rows((maxcol,), True)\n        trim_bottom = max(focus_rows + offset_rows - inset_rows - maxrow, 0)\n\n        # 2. collect the widgets above the focus", "SIB|widget.listbox.ListBox.calculate_visible|complementary quantities computed from different states", also=[("        trim_bottom = max(focus_rows + offset_rows - inset_rows - maxrow, 0)\n\n        # 3. collect", "        # 3. collect")]),
     Mut("font-glyph-cache-by-character-only", "urwid/font.py", "Font.render", "        key = (character, get_encoding())\n", "        key = character\n", "MEMO|font.Font.render|dict memo self.canvas ignores"),
